@@ -246,11 +246,11 @@ Section LastInstrument.
           rewrite (mmerge_last k Hk). destruct (lastm a) as [y|] eqn:Ey.
           -- cbn [sorted_from] in Hsorted. destruct Hsorted as (Hy1 & Hy2 & Hs3).
              rewrite Hmerged by (apply (sorted_from_weaken _ (a_ts y)); [lia|exact Hs3]).
-             destruct (top (map (fun m => m a) (UL S r) ++ [D a])) as [x|] eqn:Ex; cbn [lv_step].
+             destruct (top (map (fun m => m a) (UL S r) ++ [D a])) as [x|] eqn:Ex; cbn [lvf_step].
              ++ destruct (sorted_top_bound _ _ _ Hs3 Ex) as [Hlt _]. unfold lv_later.
                 destruct (a_ts x >? a_ts y) eqn:E; [reflexivity|lia].
              ++ unfold lv_later. cbn [agg0 a_ts]. destruct (0 >? a_ts y) eqn:E; [lia|reflexivity].
-          -- cbn [sorted_from] in Hsorted. rewrite Hmerged by exact Hsorted. cbn [lv_step].
+          -- cbn [sorted_from] in Hsorted. rewrite Hmerged by exact Hsorted. cbn [lvf_step].
              now destruct (top (map (fun m => m a) (UL S r) ++ [D a])).
         * cbn [app aempty] in *. cbn [sorted_from top] in *. rewrite Hmerged by exact Hsorted.
           now destruct (top (map (fun m => m a) (UL S r) ++ [D a])).
